@@ -97,6 +97,8 @@ AMake(v, o, t, tg, fid) ==
   ELSE IF Exists(v, o.p) THEN
          \* an open(O_CREAT) without O_EXCL of an existing name is not determined here
          (IF o.op = "create" /\ ~(Has(o, "excl") /\ o.excl) THEN Free(v) ELSE Fail(v, {EEXIST}))
+  \* a symbolic link to a target that is not valid UTF-8 (flag tgx of the request): refusing is accepted
+  ELSE IF t = "sym" /\ Has(o, "tgx") /\ o.tgx THEN Free([v EXCEPT ![o.p] = NewNode(t, 511, tg, fid)])
   ELSE Ok([v EXCEPT ![o.p] = NewNode(t, IF t = "sym" THEN 511 ELSE o.m, tg, fid)])
 
 AOp(v, o, hasUpper, fid) ==
@@ -113,6 +115,10 @@ AOp(v, o, hasUpper, fid) ==
          IF o.src \notin Paths \/ ~Exists(v, o.src) THEN Fail(v, {})
          ELSE IF v[o.src].t = "dir" THEN (IF ParentOK(v, o.p) /\ ~Exists(v, o.p) THEN Fail(v, {EPERM}) ELSE Fail(v, {}))
          ELSE IF ~ParentOK(v, o.p) THEN Fail(v, {})
+         \* a symbolic link whose target is not valid UTF-8 (marked in x by the trace spec): refusing is accepted,
+         \* with any errno
+         ELSE IF v[o.src].t = "sym" /\ v[o.src].x # {} THEN
+                (IF Exists(v, o.p) THEN Fail(v, {}) ELSE Free([v EXCEPT ![o.p] = v[o.src]]))
          ELSE IF Exists(v, o.p) THEN Fail(v, {EEXIST})
          ELSE Ok([v EXCEPT ![o.p] = v[o.src]])
     [] o.op = "unlink" ->
